@@ -68,6 +68,8 @@ impl<V: TypedVec> CachedVec<V> {
     }
 
     pub fn clear(&self) {
+        #[cfg(anydb_verif)]
+        crate::verif_locks::tap("cache", &self.cache, true);
         *self.cache.write() = Self::empty();
         if let Some(c) = &self.access_count {
             c.store(0, Relaxed);
@@ -110,6 +112,8 @@ impl<V: TypedVec + ReadableVec<V::I, V::T>> CachedVec<V> {
             .map(|c| c.fetch_add(1, Relaxed) + 1)
             .unwrap_or(0);
 
+        #[cfg(anydb_verif)]
+        crate::verif_locks::tap("cache", &self.cache, false);
         let cache = self.cache.read();
         if cache.0 == len && cache.1 == version {
             return Some(cache.2.clone());
@@ -121,6 +125,8 @@ impl<V: TypedVec + ReadableVec<V::I, V::T>> CachedVec<V> {
         }
 
         let data: Arc<[V::T]> = self.inner.collect_range_dyn(0, len).into();
+        #[cfg(anydb_verif)]
+        crate::verif_locks::tap("cache", &self.cache, true);
         let mut cache = self.cache.write();
         if cache.0 == len && cache.1 == version {
             return Some(cache.2.clone());
